@@ -37,6 +37,8 @@ class NodeCtl:
                 self.busy = False
                 if self.on_return:
                     self.on_return(self, "call")
+            if chip.rxf:
+                self.net.last_activity = sim.now
             try:
                 t = node.update()
             except (SimHorizon, TaskExit):
@@ -49,8 +51,13 @@ class NodeCtl:
                 self.ret_types.append(t)
             if self.on_return:
                 self.on_return(self, "update")
+            if t or self.busy:
+                self.net.last_activity = sim.now
             if not chip.rxf and not self.cmds:
-                sim.wait_irq(chip, self.mcu.poll, self.mcu.j(30 * US))
+                # an idle `while True: update()` loop with period `poll`: it reacts to a reception after a
+                # delay uniform in [0, poll]; without reception it does nothing observable, so it is not run
+                react = 30 * US + int(self.mcu.rng.random() * self.mcu.poll)
+                sim.wait_irq(chip, 40 * MS, react)
             else:
                 sim.advance(self.mcu.j(20 * US))
 
@@ -61,6 +68,7 @@ class Net:
         self.med = medium_cls(self.sim)
         self.med.destructive = destructive
         self.ctl = {}
+        self.last_activity = 0
         self.L = boot.lib()
         boot.reset_frame_ids()
 
@@ -114,23 +122,24 @@ class Net:
             self.sim.advance(step_us * US)
         return True
 
-    def quiescent(self):
+    def quiescent(self, quiet_ms=25):
+        """no command running, every RX FIFO empty, every radio idle, nothing on air and no frame
+        handled by anybody for quiet_ms"""
+        t_air = self.med.log[-1]["t1"] if self.med.log else 0
+        if self.sim.now - max(t_air, self.last_activity) < quiet_ms * MS:
+            return False
         for c in self.ctl.values():
-            if c.chip.rxf and c.task is not None and not c.task.done:
-                return False
-            if c.chip.state not in ("idle",):
-                return False
-            if c.task is not None and not c.task.done and (not c.task.idle or c.cmds or c.busy):
+            if c.task is None or c.task.done:
+                continue
+            if c.chip.rxf or c.cmds or c.busy or c.chip.state != "idle":
                 return False
         return True
 
-    def settle(self, timeout_ms=3000, hold=6, step_us=500):
-        """advance until the whole network has been quiescent for `hold` consecutive steps"""
-        n = 0
+    def settle(self, timeout_ms=3000, quiet_ms=25, step_us=2000):
+        """advance until the whole network has been quiescent"""
         end = self.sim.now + timeout_ms * MS
-        while n < hold:
+        while not self.quiescent(quiet_ms):
             self.sim.advance(step_us * US)
-            n = n + 1 if self.quiescent() else 0
             if self.sim.now >= end:
                 return False
         return True
